@@ -30,7 +30,7 @@ DEFAULT_COLLECT = (".p", ".log", ".lst", ".map", ".noi", ".obj", ".h", ".i", ".m
 
 
 class DrvResult:
-    __slots__ = ("rc", "sig", "timeout", "out", "err", "files", "trace", "argv")
+    __slots__ = ("rc", "sig", "timeout", "out", "err", "files", "trace", "argv", "wall")
 
     def exists(self, rel):
         return rel in self.files
@@ -77,11 +77,15 @@ def run_job(build, job):
         for k in list(e):
             if isinstance(e[k], str) and "{ROOT}" in e[k]:
                 e[k] = e[k].replace("{ROOT}", d)
+        import time
+        t0 = time.time()
         rc, out, err, to = _run([build.tool("asl")] + argv, cwd, e, job.get("timeout", 60))
+        wall = time.time() - t0
         r = DrvResult()
         r.rc, r.out, r.err, r.timeout = rc, out.replace(d, "{ROOT}"), err.replace(d, "{ROOT}"), to
         r.sig = (-rc) if (rc is not None and rc < 0) else None
         r.argv = job["argv"]
+        r.wall = round(wall, 3)
         r.files = {}
         suff = tuple(job.get("collect", DEFAULT_COLLECT))
         for root, _, names in os.walk(d):
